@@ -3001,6 +3001,8 @@ static void AssembleFile_InitPass(void) {
     SetIntConstRelaxedMode(DefRelaxedMode);
     SetFlag(&CompMode, CompModeName, DefCompMode);
     SetFlag(&DottedStructs, DottedStructsName, False);
+    RadixBase    = 10;
+    OutRadixBase = 16;
     strmaxcpy(TmpCompStr, NestMaxName, sizeof(TmpCompStr));
     EnterIntSymbol(&TmpComp, NestMax = DEF_NESTMAX, SegNone, True);
     CopyDefSymbols();
